@@ -57,7 +57,8 @@ def render(ids, crlf=False, style=None):
             # blank lines (before the first header too; there in either
             # newline style: the file's style is set by its first *header*)
             out.append((nl if i > 0 or st & 16 else
-                        (b'\n' if crlf else b'\r\n')) * (1 + (st >> 5) % 3))
+                        (b'\n' if crlf else b'\r\n')) *
+                       (1 + (st >> 5) % 3 if st & 0xe0 != 0xe0 else 1200))
 
         if st & 2:
             extra = b', x-pad=' + b'p' * [40, 200, 9000][(st >> 6) % 3]
